@@ -1,5 +1,6 @@
 import PtnModel.Proofs.CompressKernel
 import PtnModel.Proofs.CompressSchmidt
+import PtnModel.Proofs.CompressFromVector
 /-!
 # Property C13 (`MPS.compress`, `MPS.from_vector` with tolerance)
 
@@ -243,6 +244,27 @@ theorem compress_first_bond_schmidt_right (hq : C01.QRKernel dqr) (hk : SvdKerne
   obtain ⟨ψ1, spec, ho, h1, h2⟩ := first_bond_right hq hk ha hadm htol htol1 hrun
   exact ⟨ψ1, spec, fun s hs => C01.ortho_dense hq hadm ho hs, C01.ortho_unit hq hadm ho, h1, h2⟩
 
+/-- **8.** `MPS.from_vector(d, nsites, v, tol)` (TT-SVD, model `MPS.fromVector`) has relative error at most
+`sqrt(L · tol)`: whenever it returns `ψ`,
+`Σ_s |ψ[s] - v[flat s]|² ≤ L · tol · Σ_c |v[c]|²` (`flat d s` the row-major position of the digit list `s`, `L = nsites`),
+i.e. `‖ψ - v‖ ≤ sqrt(L · tol) · ‖v‖`.  No hypothesis on `v` is needed (`0 ≤ tol`). -/
+theorem from_vector_bound (hk : SvdKernel k) (htol : 0 ≤ tol) {d n : Nat} {v : List 𝕜} {ψ : MPS 𝕜}
+    (h : MPS.fromVector k d n v tol = .ok ψ) :
+    ∑ s ∈ digitsU d n, ‖ψ.amp s - v.getD (flat d s) 0‖ ^ 2 ≤ n * tol * ∑ c ∈ range v.length, ‖v.getD c 0‖ ^ 2 ∧
+    Real.sqrt (∑ s ∈ digitsU d n, ‖ψ.amp s - v.getD (flat d s) 0‖ ^ 2) ≤
+      Real.sqrt (n * tol) * Real.sqrt (∑ c ∈ range v.length, ‖v.getD c 0‖ ^ 2) := by
+  have hb := fromVector_bound hk htol h
+  refine ⟨hb, ?_⟩
+  rw [← Real.sqrt_mul (mul_nonneg (Nat.cast_nonneg n) htol)]
+  exact Real.sqrt_le_sqrt hb
+
+/-- **8'.** `from_vector` with `0 ≤ tol < 1` raises no exception on a non-zero vector of length `d^nsites`
+(`d, nsites ≥ 1`). -/
+theorem from_vector_ok (hk : SvdKernel k) (htol : 0 ≤ tol) (htol1 : tol < 1) {d n : Nat} (hd : 0 < d) (hn : 0 < n)
+    {v : List 𝕜} (hvl : v.length = d ^ n) (hne : ∃ c, c < v.length ∧ v.getD c 0 ≠ 0) :
+    ∃ ψ, MPS.fromVector k d n v tol = .ok ψ :=
+  fromVector_ok hk htol htol1 hd hn hvl hne
+
 /-! ## Non-vacuity
 
 Kernels: `QrExists.fullQR` over `ℝ` / `Ortho.realQR` over `ℂ` satisfy `C01.QRKernel` (see C01);
@@ -304,6 +326,17 @@ example (left : Bool) : ∃ (ψ' : MPS ℂ) (nrm scale : ℝ),
   refine ⟨ψ', nrm, scale, C01.realQR_kernel, exKernels_kernel, exAbs_contract, exψC_adm, hrun, ?_⟩
   rw [(compress_returns_norm C01.realQR_kernel exKernels_kernel exAbs_contract exψC_adm (by norm_num) (by norm_num)
     hrun).1, exψC_normsq]
+
+/-- non-vacuity of `from_vector_bound`, `from_vector_ok`: `v = [3, 0, 0, 4]` on two sites of dimension two over `ℝ`,
+`tol = 1/4`, kernels `exKernels ℝ`; the vector is non-zero, and the run returns -/
+example : ∃ ψ : MPS ℝ, SvdKernel (exKernels ℝ) ∧ (0 : ℝ) ≤ 1 / 4 ∧ (1 / 4 : ℝ) < 1 ∧
+    ([3, 0, 0, 4] : List ℝ).length = 2 ^ 2 ∧ (∃ c, c < ([3, 0, 0, 4] : List ℝ).length ∧ ([3, 0, 0, 4] : List ℝ).getD c 0 ≠ 0) ∧
+    MPS.fromVector (exKernels ℝ) 2 2 ([3, 0, 0, 4] : List ℝ) (1 / 4) = .ok ψ := by
+  have hne : ∃ c, c < ([3, 0, 0, 4] : List ℝ).length ∧ ([3, 0, 0, 4] : List ℝ).getD c 0 ≠ 0 :=
+    ⟨0, by simp, by simp⟩
+  obtain ⟨ψ, hψ⟩ := from_vector_ok (exKernels_kernel (𝕜 := ℝ)) (by norm_num : (0 : ℝ) ≤ 1 / 4) (by norm_num)
+    (d := 2) (n := 2) (by norm_num) (by norm_num) (v := [3, 0, 0, 4]) (by simp) hne
+  exact ⟨ψ, exKernels_kernel, by norm_num, by norm_num, by simp, hne, hψ⟩
 
 /-- non-vacuity of `prod_one_sub_ge` -/
 example : (∀ ε ∈ ([1 / 4, 1 / 2] : List ℝ), 0 ≤ ε ∧ ε ≤ 1) := by
